@@ -40,7 +40,9 @@ TOWERS = [
 ]
 
 PAGES = ["animal.txt", "Babel.txt", "fi-gradation.txt"]
-INS_FULL = ["{{", "}}", "[[", "]]", "{|", "|}", "<pre>", "</div>", "==", "'''"]
+# "[[" is not inserted: an unclosed "[[x|" followed by a long bracket-free run makes LINKS_RE cubic
+# (bounded-time is C05's clause; see known finding K06 there)
+INS_FULL = ["{{", "}}", "]]", "{|", "|}", "<pre>", "</div>", "==", "'''"]
 INS_FEW = ["{{", "<pre>", "|}"]
 
 
@@ -232,7 +234,7 @@ def main(run):
                 chunks.append(("mut", page, lo, lo + step))
     total = len(chunks)
     done = 0
-    for cid, acc, hung in run_chunks(work, chunks, nproc=run.nproc, case_timeout=30):
+    for cid, acc, hung in run_chunks(work, chunks, nproc=run.nproc, case_timeout=20):
         run.acc.merge(acc)
         done += 1
         if done % 500 == 0:
@@ -246,7 +248,7 @@ def main(run):
                 "(kinds + nesting, text ignored) with >= 3 node kinds."
                 % (len(TOKENS), "3" if q else "4", "4" if q else "5", 24 if q else 30, "3" if q else "4", len(LIBTOKENS),
                    len(MODES), len(TOWERS), "" if q else "; every single-token deletion at every position of the 3 real pages in /repo/tests, every insertion of "
-                   "10 structural tokens at every token boundary of fi-gradation.txt and of 3 structural tokens at every boundary of the other two"),
+                   "9 structural tokens at every token boundary of fi-gradation.txt and of 3 structural tokens at every boundary of the other two"),
         "node_kinds_seen": nk,
         "exhaustive": True,
     }
